@@ -218,10 +218,24 @@ class Tensor(Funsor, metaclass=TensorMeta):
         if not subs:
             return self
 
-        # Handle diagonal variable substitution
+        # Handle diagonal variable substitution, including renaming onto the
+        # name of an input that survives the renaming pass below.
         var_counts = Counter(v for v in subs.values() if isinstance(v, Variable))
+        kept = frozenset(
+            k
+            for k in self.inputs
+            if not isinstance(subs.get(k), (Variable, Slice))
+        )
         subs = OrderedDict(
-            (k, self.materialize(v) if var_counts[v] > 1 else v)
+            (
+                k,
+                (
+                    self.materialize(v)
+                    if var_counts[v] > 1
+                    or (isinstance(v, (Variable, Slice)) and v.name in kept)
+                    else v
+                ),
+            )
             for k, v in subs.items()
         )
 
